@@ -18,7 +18,7 @@ RULE = (
     "within 16*eps32*(1 + (|a|*max|x|+|b|)/(|a|*scale)); axes: per-axis scale/z = the 1-D estimator applied to each "
     "lane (1e-9 relative), axis=None = estimator on the flattened data, result shapes broadcast against the input; "
     "finite: every z finite, constant lane -> scale replaced by 1 -> z=0; containers: FilterbankBlock.normalise / "
-    "TimeSeries.normalise = estimate_zscore of their data; layout: the same values in F-order / transposed / strided / reversed views give the same result. Non-trivial = non-constant data and (a!=1 or b!=0 or 2-D)."
+    "TimeSeries.normalise = estimate_zscore of their data; layout: the same values in F-order / transposed / strided / reversed views give the same result; dtype: the integer-valued image 16*x+c stored as uint8/uint16/uint32/int16/int32/int64 has 16x the scale. Non-trivial = non-constant data and (a!=1 or b!=0 or 2-D)."
 )
 ASSUMPTIONS = [
     "doublemad returns a per-element scale (left/right MAD by side of the median): under a<0 the sides swap, so its scale relation is asserted only at elements different from the median (its z relation everywhere)",
@@ -88,7 +88,8 @@ def strat_case(draw):
             "loc": draw(st.sampled_from(["median", "mean", "norm"])),
             "family": draw(st.sampled_from(["spread", "spread", "ties", "const", "outliers", "const_lane"])),
             "seed": draw(st.integers(0, 2**31 - 1)), "a": a, "b16": draw(st.integers(-1600, 1600)),
-            "layout": draw(st.sampled_from(["C", "C", "F", "transposed_view", "strided_view", "reversed_view"]))}
+            "layout": draw(st.sampled_from(["C", "C", "F", "transposed_view", "strided_view", "reversed_view"])),
+            "int_dtype": draw(st.sampled_from([None, None, "uint8", "uint16", "int16", "int32", "int64", "uint32"]))}
 
 
 def lanes_of(x, axis):
@@ -254,7 +255,28 @@ def check(case, ctx):
         zv = z_of(xv, axis)
         if not np.allclose(np.asarray(zv.data), np.asarray(zx.data), rtol=1e-6, atol=1e-6):
             raise Violation("zscore:layout-dependent", f"{ctxt} layout={lay}")
+    # ---- the container dtype is not part of the value either: 16*x - min is integer-valued; stored in an integer
+    # dtype that can hold it (unsigned ones included) it is the affine image 16*x + c of x
+    idt = case.get("int_dtype")
+    if idt is not None and method != "doublemad":
+        xi = np.round(16.0 * x)
+        assert np.array_equal(xi, 16.0 * x)
+        xi = xi - xi.min() if idt.startswith("u") else xi
+        info = np.iinfo(idt)
+        if xi.min() >= info.min and xi.max() <= info.max:
+            xint = xi.astype(idt)
+            si = np.asarray(scale_of(xint, axis))
+            if si.shape != sx.shape or not rel_close(si, 16.0 * sx, atol=16 * ATOL / abs(a)):
+                raise Violation("scale:dtype-dependent", f"{ctxt}: the values 16*x+c stored as {idt}: scale {np.asarray(si).reshape(-1).tolist()[:4]}, "
+                                f"16*scale(x) = {(16.0 * np.asarray(sx)).reshape(-1).tolist()[:4]}")
+            idt_used = idt
+        else:
+            idt_used = None
+    else:
+        idt_used = None
     labels = [method, loc, f"axis{axis}", case["family"], f"{len(case['shape'])}d", f"layout_{lay}"]
+    if idt_used:
+        labels.append("stored_as_" + idt_used)
     if len(case["shape"]) == 2 and 1 in case["shape"]:
         labels.append("single_lane")
     if a < 0:
